@@ -7,6 +7,7 @@ import rxsci.container.parquet as P
 from vp import drivers as D
 from vp.engine import Ob
 from vp.harness import mk, fail
+from vp import harness
 from vp.stubs import fakearrow as FA
 
 PROP = 'C20'
@@ -32,13 +33,12 @@ def _sel(x, n):
 
 class Env(object):
     def __enter__(self):
-        self.mod = sys.modules['rxsci.container.parquet']
-        self.saved = (self.mod.pa, self.mod.pq)
-        self.mod.pa, self.mod.pq = FA.FakePA, FA.FakePQ
+        self.ctx = harness.stubbed([('rxsci.container.parquet', 'pa', FA.FakePA), ('rxsci.container.parquet', 'pq', FA.FakePQ)])
+        self.ctx.__enter__()
         return self
 
     def __exit__(self, *a):
-        self.mod.pa, self.mod.pq = self.saved
+        self.ctx.__exit__()
         return False
 
 
